@@ -242,18 +242,21 @@ type Inv struct {
 }
 
 type Host struct {
-	mu      sync.Mutex
-	spec    HostSpec
-	dr      *ysgo.DialogueRunner
-	st      variable.Storer
-	kept    []keptEl
-	rec     *recStorer
-	events  []string
-	invs    []*Inv
-	done    chan struct{}
-	readers []*faultReader
-	onCall  func(kind, name string) // preemption point (probe / handler entry)
-	loadErr error
+	gen          map[string]int // generation of the handler registered under each command name
+	staleHandler string         // a replaced handler was invoked
+	hostPanicked bool           // the host function pboom panicked during the current call
+	mu           sync.Mutex
+	spec         HostSpec
+	dr           *ysgo.DialogueRunner
+	st           variable.Storer
+	kept         []keptEl
+	rec          *recStorer
+	events       []string
+	invs         []*Inv
+	done         chan struct{}
+	readers      []*faultReader
+	onCall       func(kind, name string) // preemption point (probe / handler entry)
+	loadErr      error
 	// freeRunning: handlers that complete on their own goroutine really do so whenever the Go scheduler lets
 	// them (stress modes). Otherwise (the default) such a handler is held at its gate until the call that
 	// dispatched it has returned: whether a freshly started goroutine gets to run before the runner looks at
@@ -442,6 +445,20 @@ func (h *Host) register() {
 				h.st.SetNumberValue(name, x)
 			}
 		}))
+		must(h.dr.ConvertAndAddFunction("pboom", func(k float64) {
+			h.call("fn", "pboom", k)
+			h.hostPanicked = true
+			if gStats != nil {
+				gStats.fault("host_function_panics_with_a_value_of_its_own")
+			}
+			switch int(k) % 3 {
+			case 0:
+				panic(hostPanicValue{"the host's own trouble"})
+			case 1:
+				panic(42)
+			}
+			panic([]string{"audit", "failed"})
+		}))
 		must(h.dr.ConvertAndAddFunction("pfail", func(x float64) (float64, error) { h.call("fn", "pfail", x); return 0, hostError(int(x)) }))
 	}
 	if h.spec.FailedRegs {
@@ -583,6 +600,20 @@ func (h *Host) newInv(name string, args []string) *Inv {
 	return inv
 }
 
+// Reregister registers the handler of a command again (same shape, a new closure), as a host does that swaps
+// behaviour between two scenes.
+func (h *Host) Reregister(name string) {
+	for _, hs := range h.spec.Handlers {
+		if hs.Name == name {
+			h.registerHandler(hs)
+			if gStats != nil {
+				gStats.fault("handler_replaced_between_executions")
+			}
+			return
+		}
+	}
+}
+
 func schedErrN(s Sched, k int) error {
 	if s.Err {
 		return hostError(k)
@@ -591,6 +622,21 @@ func schedErrN(s Sched, k int) error {
 }
 
 func (h *Host) registerHandler(hs HandlerSpec) {
+	// every registration of a name is a new generation of its handler; a handler of an older generation that is
+	// still invoked after the host replaced it is noted (ground truth: the host knows which closure it registered last)
+	if h.gen == nil {
+		h.gen = map[string]int{}
+	}
+	h.gen[hs.Name]++
+	gen := h.gen[hs.Name]
+	newInv := func(args []string) *Inv {
+		h.mu.Lock()
+		if h.gen[hs.Name] != gen && h.staleHandler == "" {
+			h.staleHandler = fmt.Sprintf("%s (generation %d invoked, generation %d is registered)", hs.Name, gen, h.gen[hs.Name])
+		}
+		h.mu.Unlock()
+		return h.newInv(hs.Name, args)
+	}
 	rawArgs := func(args []*variable.Value) []string {
 		out := make([]string, len(args))
 		for i, a := range args {
@@ -605,7 +651,7 @@ func (h *Host) registerHandler(hs HandlerSpec) {
 	switch hs.Shape {
 	case "raw_prefilled":
 		h.dr.AddCommand(hs.Name, func(args []*variable.Value) <-chan error {
-			inv := h.newInv(hs.Name, rawArgs(args))
+			inv := newInv(rawArgs(args))
 			h.reenter(inv)
 			inv.Sched.Immediate = true
 			inv.released = true
@@ -615,7 +661,7 @@ func (h *Host) registerHandler(hs HandlerSpec) {
 		})
 	case "raw_buffered":
 		h.dr.AddCommand(hs.Name, func(args []*variable.Value) <-chan error {
-			inv := h.newInv(hs.Name, rawArgs(args))
+			inv := newInv(rawArgs(args))
 			h.reenter(inv)
 			inv.ch = make(chan error, 1)
 			if inv.Sched.Immediate {
@@ -626,7 +672,7 @@ func (h *Host) registerHandler(hs HandlerSpec) {
 		})
 	case "raw_unbuffered":
 		h.dr.AddCommand(hs.Name, func(args []*variable.Value) <-chan error {
-			inv := h.newInv(hs.Name, rawArgs(args))
+			inv := newInv(rawArgs(args))
 			h.reenter(inv)
 			inv.gate = make(chan error, 1)
 			if inv.Sched.Immediate {
@@ -690,7 +736,7 @@ func (h *Host) registerHandler(hs HandlerSpec) {
 				}
 				canon = append(canon, reflCanon(a))
 			}
-			inv := h.newInv(hs.Name, canon)
+			inv := newInv(canon)
 			switch hs.Shape {
 			case "conv_none":
 				inv.gate = make(chan error, 1)
@@ -893,9 +939,15 @@ func (h *Host) Next(arg int) (r Resp) {
 }
 
 func (h *Host) NextEl(arg int) (r Resp, el *ysgo.DialogueElement) {
+	h.hostPanicked = false
 	defer func() {
 		if p := recover(); p != nil {
 			r = Resp{Kind: rPanic, Err: fmt.Sprint(p)}
+			if h.hostPanicked {
+				// the host's own function panicked during this call and the panic came back to the host:
+				// nobody's fault but the host's, which carries on
+				r.Kind = rHostPanic
+			}
 		}
 	}()
 	var err error
@@ -910,6 +962,9 @@ func (h *Host) NextEl(arg int) (r Resp, el *ysgo.DialogueElement) {
 	}
 	return toResp(el, err), el
 }
+
+// hostPanicValue is what the host function pboom panics with: a value of the host's own.
+type hostPanicValue struct{ what string }
 
 type keptEl struct {
 	el    *ysgo.DialogueElement
